@@ -11,7 +11,7 @@ ID = 'C09'
 LEAN_MODULE = 'PncProofs.C09'
 LEAN_FILE = 'PncProofs/C09.lean'
 NAMESPACE = 'Props.C09'
-LEAN_CONE = ['PncModel.Words', 'PncModel.Camx.Landuse', 'PncModel.Camx.WindRead', 'PncModel.Camx.CloudRainRead', 'PncModel.Camx.BoundaryRead', 'PncProofs.WindLemmas', 'PncProofs.CloudRainLemmas', 'PncProofs.BoundaryLemmas', 'PncModel.Camx.Uamiv', 'PncModel.Camx.Slab', 'PncProofs.WordsLemmas', 'PncProofs.LanduseLemmas', 'PncProofs.LanduseThms', 'PncProofs.UamivLemmas', 'PncProofs.C09']
+LEAN_CONE = ['PncModel.Words', 'PncModel.Camx.Landuse', 'PncModel.Camx.WindRead', 'PncModel.Camx.CloudRainRead', 'PncModel.Camx.BoundaryRead', 'PncModel.Camx.UamivRead', 'PncProofs.WindLemmas', 'PncProofs.CloudRainLemmas', 'PncProofs.BoundaryLemmas', 'PncModel.Camx.Uamiv', 'PncModel.Camx.Slab', 'PncProofs.WordsLemmas', 'PncProofs.LanduseLemmas', 'PncProofs.LanduseThms', 'PncProofs.UamivLemmas', 'PncProofs.C09']
 LEMMA_FILES = ['PncProofs/WordsLemmas.lean', 'PncProofs/UamivLemmas.lean', 'PncProofs/LanduseLemmas.lean', 'PncProofs/LanduseThms.lean']
 REQUIRED_THEOREMS = ['tiles', 'header_counts', 'refDecode_encode', 'slab_tiles', 'slab_record_content', 'cloud_rain_tiles',
                      'cloud_rain_counts', 'wind_tiles', 'wind_step_shape', 'boundary_tiles', 'boundary_counts',
@@ -41,7 +41,7 @@ def gen(rng, tier):
     out = []
     for i in range(n):
         if i % 5 == 4:
-            c = camx.gen_uamiv_read_domain(rng)
+            c = camx.gen_uamiv_read_domain(rng) if i % 10 == 4 else camx.gen_uamiv_one_day(rng)
             c['kind'] = 'read2'
         else:
             c = camx.gen_uamiv(rng)
@@ -439,6 +439,11 @@ def agree(case, out, res):
         return None
     if case['kind'] == 'write':
         return None if out[3:] == res['hex'] else 'writer bytes differ from the reference encoding (first difference at byte %d)' % _firstdiff(out[3:], res['hex'])
+    if case['kind'] == 'read2':
+        # the legacy record reader against its own Lean model (UamivRead.read) on the same bytes
+        d = camx.record_model_diff(res['hex'], res) if 'hex' in res else None
+        if d:
+            return d
     return camx.diff_view(out, res)
 
 
